@@ -233,6 +233,18 @@ func (p *PX) term(v ssa.Value, fr *pxFrame, st *pxState) *Term {
 			nb := &Term{K: TConst, C: sum, T: b.T, key: sum.String()}
 			a, b = a.A, nb
 		}
+		// x - x is 0 and x - (x - c) is c, whatever x (modular arithmetic): `at := total - left`
+		// with left counting down from total
+		if x.Op == token.SUB && a.K != TConst {
+			if _, _, isInt := intTypeInfo(p.w, v.Type()); isInt {
+				if a.key == b.key {
+					return zeroTerm(v.Type())
+				}
+				if b.K == TBin && b.Op == token.SUB && b.B.K == TConst && b.A.key == a.key && types.Identical(b.T, v.Type()) {
+					return &Term{K: TConst, C: b.B.C, T: v.Type(), key: b.B.C.String()}
+				}
+			}
+		}
 		// (y + c1) - c2 and (y - c1) + c2 with c1 == c2 is y (len(append(s, x)) - 1)
 		if (x.Op == token.SUB || x.Op == token.ADD) && b.K == TConst && a.K == TBin && a.B.K == TConst && a.B.C.Cmp(b.C) == 0 &&
 			((x.Op == token.SUB && a.Op == token.ADD) || (x.Op == token.ADD && a.Op == token.SUB)) && types.Identical(a.T, v.Type()) {
@@ -332,6 +344,16 @@ func (p *PX) term(v ssa.Value, fr *pxFrame, st *pxState) *Term {
 					return &Term{K: TLeaf, V: v, T: v.Type(), key: "<*" + strings.TrimSuffix(cell, "*") + ">"}
 				}
 			}
+			// a local array of structs only accessed by constant index (pxlocalarray.go):
+			// the whole array as an aggregate of what was stored, or one field of an element
+			if al, ok := x.X.(*ssa.Alloc); ok {
+				if t := p.localArrayValue(al, fr, st); t != nil {
+					return t
+				}
+			}
+			if t := p.localArrayFieldLoad(x.X, fr, st); t != nil {
+				return t
+			}
 			// load of a local variable: the value last stored on this path
 			if al, ok := x.X.(*ssa.Alloc); ok {
 				if t, ok := st.vals[p.reg(fr, al)+"*"]; ok {
@@ -412,6 +434,9 @@ func (p *PX) term(v ssa.Value, fr *pxFrame, st *pxState) *Term {
 		return &Term{K: TLeaf, V: v, T: v.Type(), key: fmt.Sprintf("fld(%s,.%d)", a.key, x.Field)}
 	case *ssa.IndexAddr:
 		a, i := p.term(x.X, fr, st), p.term(x.Index, fr, st)
+		if isPrefixTerm(a) {
+			a = a.Args[0] // an element of arr[:k] is the element of arr
+		}
 		if t := p.roIndexAddr(a, i, v.Type()); t != nil {
 			return t
 		}
@@ -447,7 +472,7 @@ func (p *PX) term(v ssa.Value, fr *pxFrame, st *pxState) *Term {
 			return p.term(x.X, fr, st)
 		}
 	case *ssa.Index:
-		if a := p.term(x.X, fr, st); (a.K == TPure && a.Name == "roval") || a.CV != nil {
+		if a := p.term(x.X, fr, st); (a.K == TPure && (a.Name == "roval" || a.Name == "array")) || a.CV != nil {
 			if i := p.term(x.Index, fr, st); i.K == TConst && i.C.IsInt64() {
 				if t := p.componentOf(a, int(i.C.Int64()), fr, st); t != nil {
 					return t
@@ -475,6 +500,10 @@ func (p *PX) term(v ssa.Value, fr *pxFrame, st *pxState) *Term {
 		if al, ok := wholeLocalArray(x); ok {
 			return p.term(al, fr, st)
 		}
+		// `arr[:k]`: the first k cells of the array (pxlocalarray.go)
+		if al, ok := prefixOfLocalArray(x); ok && !p.views {
+			return p.prefixTerm(x, al, fr, st)
+		}
 	case *ssa.Call:
 		if t, ok := st.vals[p.reg(fr, v)]; ok {
 			return t
@@ -489,6 +518,17 @@ func (p *PX) term(v ssa.Value, fr *pxFrame, st *pxState) *Term {
 				return p.term(ms.Len, fr, st)
 			}
 			a := p.term(c.Args[0], fr, st)
+			// a slice made on this path and carried here by a variable cell (a captured
+			// `fldList` assigned by one closure, measured by the next): the length it was made
+			// with — a slice value never changes its length
+			if _, isMk := a.V.(*ssa.MakeSlice); isMk && a.K == TLeaf && !p.views {
+				if ml, ok := st.vals["mklenx:"+a.key]; ok {
+					return ml
+				}
+			}
+			if isPrefixTerm(a) {
+				return a.Args[1] // len(arr[:k]) = k
+			}
 			if al, ok := a.V.(*ssa.Alloc); ok && a.K == TLeaf && !p.views {
 				if n, ok := localArrayLen(al); ok && isSliceOrArrayPtr(c.Args[0].Type()) {
 					nb := big.NewInt(n)
@@ -531,6 +571,14 @@ func (p *PX) term(v ssa.Value, fr *pxFrame, st *pxState) *Term {
 				}
 			}
 		}
+		// a call through a method value of a library method (`size := vv.Len` … `size()`)
+		// is the call of the method on the bound receiver (pxmethodval.go)
+		var boundRecv *Term
+		if name == "" {
+			if m, recv := p.boundLibMethod(x, fr, st); m != nil {
+				name, boundRecv = qualifiedFnName(m), recv
+			}
+		}
 		if pureMethods[name] || p.extraPure[name] {
 			var args []*Term
 			var keys []string
@@ -538,6 +586,10 @@ func (p *PX) term(v ssa.Value, fr *pxFrame, st *pxState) *Term {
 				a := p.term(c.Value, fr, st)
 				args = append(args, a)
 				keys = append(keys, a.key)
+			}
+			if boundRecv != nil {
+				args = append(args, boundRecv)
+				keys = append(keys, boundRecv.key)
 			}
 			for _, a := range c.Args {
 				ta := p.term(a, fr, st)
@@ -721,6 +773,7 @@ func (p *PX) instrs(fr *pxFrame, b *ssa.BasicBlock, from int, st *pxState, k pxC
 			cell := p.reg(fr, x) + "*"
 			delete(st.vals, cell)
 			delete(st.bseq, cell)
+			p.localArrayReset(x, fr, st)
 			if pt, ok := x.Type().Underlying().(*types.Pointer); ok {
 				if z := zeroOf(pt.Elem()); z != nil {
 					st.vals[cell] = z
@@ -806,6 +859,7 @@ func (p *PX) instrs(fr *pxFrame, b *ssa.BasicBlock, from int, st *pxState, k pxC
 				}
 			}
 			p.byteStore(x, fr, st)
+			p.localArrayStore(x, fr, st) // &localArray[i].field (pxlocalarray.go)
 		case *ssa.MapUpdate:
 			// remembered for rules about tables kept in struct fields (numbering)
 			if ld, ok := x.Map.(*ssa.UnOp); ok {
@@ -1233,7 +1287,7 @@ func (p *PX) havocLoopKeep(fr *pxFrame, lp *loopInfo, st *pxState, keep map[stri
 		if keep[reg] {
 			continue
 		}
-		if keep == nil && loopRememberers(lp)[phi] {
+		if keep == nil && (loopRememberers(lp)[phi] || loopFlagRememberers(lp)[phi]) {
 			// a variable that only remembers a counter of this loop: on the first entry
 			// it keeps its initial value ("never assigned"); "assigned in some
 			// iteration" is the second generic iteration (see enter)
